@@ -115,8 +115,11 @@ def make_machine(stats, depth):
                 self._run(self.mstack, [{"prim": "DUP"}], "map DUP")
                 self.m_snaps.insert(0, dict(self.mmap))
 
-        def _k(self, i):
-            return interp.push(self.kt, rv.to_micheline(self.kt, self.keys[i]))
+        def _k(self, i, copy=False):
+            """instructions that put key i on the stack: pushed, or pushed and replaced by its DUP copy (values that went through a
+            copy must still be the same key)"""
+            k = interp.push(self.kt, rv.to_micheline(self.kt, self.keys[i]))
+            return [k, {"prim": "DUP"}, {"prim": "DIP", "args": [[{"prim": "DROP"}]]}] if copy else [k]
 
         def _pop_value(self, stack, t):
             item = stack.items.pop(0)
@@ -135,24 +138,24 @@ def make_machine(stats, depth):
 
         # -- rules --
         @precondition(lambda self: self.ready)
-        @rule(i=st.integers(0, 7), add=st.booleans())
-        def set_update(self, i, add):
+        @rule(i=st.integers(0, 7), add=st.booleans(), cp=st.booleans())
+        def set_update(self, i, add, cp=False):
             i %= len(self.keys)
-            self.hist.append({"op": "set UPDATE", "key": i, "add": add})
+            self.hist.append({"op": "set UPDATE", "key": i, "add": add, "cp": cp})
             self._note_update(i, not add, i in self.mset)
-            self._run(self.sstack, [interp.push(rv.T("bool"), {"prim": "True" if add else "False"}), self._k(i),
+            self._run(self.sstack, [interp.push(rv.T("bool"), {"prim": "True" if add else "False"}), *self._k(i, cp),
                                     {"prim": "UPDATE"}], "set UPDATE")
             (self.mset.add if add else self.mset.discard)(i)
 
         @precondition(lambda self: self.ready)
-        @rule(i=st.integers(0, 7), val=st.one_of(st.none(), st.integers(0, 50)), gau=st.booleans())
-        def map_update(self, i, val, gau):
+        @rule(i=st.integers(0, 7), val=st.one_of(st.none(), st.integers(0, 50)), gau=st.booleans(), cp=st.booleans())
+        def map_update(self, i, val, gau, cp=False):
             i %= len(self.keys)
-            self.hist.append({"op": "map " + ("GET_AND_UPDATE" if gau else "UPDATE"), "key": i, "val": val})
+            self.hist.append({"op": "map " + ("GET_AND_UPDATE" if gau else "UPDATE"), "key": i, "val": val, "cp": cp})
             self._note_update(i, val is None, i in self.mmap)
             rval = None if val is None else val_of(self.vname, val)
             opt = {"prim": "None"} if val is None else {"prim": "Some", "args": [rv.to_micheline(self.vt, rval)]}
-            self._run(self.mstack, [interp.push(rv.T("option", self.vt), opt), self._k(i),
+            self._run(self.mstack, [interp.push(rv.T("option", self.vt), opt), *self._k(i, cp),
                                     {"prim": "GET_AND_UPDATE" if gau else "UPDATE"}], "map GET_AND_UPDATE" if gau else "map UPDATE")
             if gau:
                 old = self._pop_value(self.mstack, rv.T("option", self.vt))
@@ -165,17 +168,17 @@ def make_machine(stats, depth):
                 self.mmap[i] = rval
 
         @precondition(lambda self: self.ready)
-        @rule(i=st.integers(0, 7))
-        def observe(self, i):
+        @rule(i=st.integers(0, 7), cp=st.booleans())
+        def observe(self, i, cp=False):
             i %= len(self.keys)
-            self.hist.append({"op": "MEM/GET/SIZE", "key": i})
-            self._run(self.sstack, [{"prim": "DUP"}, self._k(i), {"prim": "MEM"}], "set MEM")
+            self.hist.append({"op": "MEM/GET/SIZE", "key": i, "cp": cp})
+            self._run(self.sstack, [{"prim": "DUP"}, *self._k(i, cp), {"prim": "MEM"}], "set MEM")
             if self._pop_value(self.sstack, rv.T("bool")) != (i in self.mset):
                 raise Violation("set MEM key %d disagrees with the model %s" % (i, sorted(self.mset)), self._case(), "observe:set-MEM")
-            self._run(self.mstack, [{"prim": "DUP"}, self._k(i), {"prim": "MEM"}], "map MEM")
+            self._run(self.mstack, [{"prim": "DUP"}, *self._k(i, cp), {"prim": "MEM"}], "map MEM")
             if self._pop_value(self.mstack, rv.T("bool")) != (i in self.mmap):
                 raise Violation("map MEM key %d disagrees with the model" % i, self._case(), "observe:map-MEM")
-            self._run(self.mstack, [{"prim": "DUP"}, self._k(i), {"prim": "GET"}], "map GET")
+            self._run(self.mstack, [{"prim": "DUP"}, *self._k(i, cp), {"prim": "GET"}], "map GET")
             got = self._pop_value(self.mstack, rv.T("option", self.vt))
             if got != (("Some", self.mmap[i]) if i in self.mmap else None):
                 raise Violation("map GET key %d = %r, model %r" % (i, got, self.mmap.get(i)), self._case(), "observe:GET")
@@ -306,11 +309,11 @@ def replay(case):
         op = step["op"]
         if op == "set UPDATE":
             M.set_update.hypothesis.inner_test if False else None
-            _call(m, "set_update", i=step["key"], add=step["add"])
+            _call(m, "set_update", i=step["key"], add=step["add"], cp=step.get("cp", False))
         elif op.startswith("map "):
-            _call(m, "map_update", i=step["key"], val=step["val"], gau=op.endswith("GET_AND_UPDATE"))
+            _call(m, "map_update", i=step["key"], val=step["val"], gau=op.endswith("GET_AND_UPDATE"), cp=step.get("cp", False))
         elif op == "MEM/GET/SIZE":
-            _call(m, "observe", i=step["key"])
+            _call(m, "observe", i=step["key"], cp=step.get("cp", False))
         elif op.startswith("MAP"):
             _call(m, "map_values")
         elif op == "ITER":
